@@ -29,6 +29,7 @@ type Prog struct {
 	// contracts parsed from zz_contracts_verif.go files
 	Contracts map[string]*Contract // key: funcKey
 	srcCache  map[string][]byte
+	Macros    map[string]*Macro
 	globConst map[*ssa.Global]*ssa.Const
 	globInit  bool
 }
@@ -68,7 +69,7 @@ func loadProg(patterns []string) (*Prog, error) {
 		return nil, fmt.Errorf("package errors (tree does not compile):\n%s", strings.Join(errs, "\n"))
 	}
 	prog, spkgs := ssautil.Packages(pkgs, ssa.InstantiateGenerics|ssa.GlobalDebug)
-	p := &Prog{Fset: fset, Pkgs: pkgs, SSA: prog, ByPath: map[string]*packages.Package{}, Funcs: map[string]*ssa.Function{}, Contracts: map[string]*Contract{}, srcCache: map[string][]byte{}}
+	p := &Prog{Fset: fset, Pkgs: pkgs, SSA: prog, ByPath: map[string]*packages.Package{}, Funcs: map[string]*ssa.Function{}, Contracts: map[string]*Contract{}, srcCache: map[string][]byte{}, Macros: map[string]*Macro{}}
 	for i, sp := range spkgs {
 		if sp == nil {
 			continue
@@ -259,4 +260,40 @@ func (p *Prog) globalConst(g *ssa.Global) *ssa.Const {
 		}
 	}
 	return p.globConst[g]
+}
+
+// lookupType resolves "[*]import/path.Name" to a type of the loaded program.
+func (p *Prog) lookupType(path string) types.Type {
+	ptr := strings.HasPrefix(path, "*")
+	path = strings.TrimPrefix(path, "*")
+	i := strings.LastIndex(path, ".")
+	if i < 0 {
+		return nil
+	}
+	pk, name := path[:i], path[i+1:]
+	var found types.Type
+	var visit func(pkg *packages.Package, seen map[string]bool)
+	visit = func(pkg *packages.Package, seen map[string]bool) {
+		if found != nil || seen[pkg.PkgPath] {
+			return
+		}
+		seen[pkg.PkgPath] = true
+		if (pkg.PkgPath == pk || relPkg(pkg.PkgPath) == pk) && pkg.Types != nil {
+			if o := pkg.Types.Scope().Lookup(name); o != nil {
+				found = o.Type()
+				return
+			}
+		}
+		for _, imp := range pkg.Imports {
+			visit(imp, seen)
+		}
+	}
+	seen := map[string]bool{}
+	for _, pkg := range p.Pkgs {
+		visit(pkg, seen)
+	}
+	if found != nil && ptr {
+		return types.NewPointer(found)
+	}
+	return found
 }
